@@ -5,6 +5,7 @@
 mod game;
 mod indep;
 mod proto;
+mod revpair;
 mod rec;
 mod rngs;
 mod util;
@@ -60,6 +61,10 @@ fn real_main() {
     let seed: u64 = a.get("seed").and_then(|s| s.parse().ok()).unwrap_or(1);
     match cmd.as_str() {
         "dump-trees" => dump_trees(),
+        "revpair" => {
+            let n: usize = a.get("n").and_then(|s| s.parse().ok()).unwrap_or(50);
+            write_events(&a["out"], &revpair::run(seed, n));
+        }
         "observe" => {
             let mut g = game::GameEnv::new(seed);
             let v = match a["proof"].as_str() {
